@@ -578,7 +578,13 @@ func Build(s *Scenario) (*World, error) {
 	}
 	for _, p := range s.Pods {
 		seq++
-		if err := w.Client.Create(w.Ctx, w.BuildPod(p, "", seq)); err != nil {
+		pod := w.BuildPod(p, "", seq)
+		if err := w.Client.Create(w.Ctx, pod); err != nil {
+			return nil, err
+		}
+		// the pod informer delivers pending pods to the cluster state too (it uses no node, but a pod with a required
+		// anti-affinity term is remembered among the anti-affinity pods although it is not bound)
+		if err := w.Cluster.UpdatePod(w.Ctx, pod); err != nil {
 			return nil, err
 		}
 	}
